@@ -201,8 +201,12 @@ func (in *Interp) chanSend(c Value, v Value) {
 	if ch.Kind != "user" {
 		panic(in.unsupported("send on abstract channel"))
 	}
-	// Unbuffered/buffered user channels are modelled as unbounded queues; a
-	// blocked send cannot be represented (A-EAGERGO).
+	// A send that would block cannot be represented (A-EAGERGO): buffered
+	// channels accept up to their capacity, unbuffered ones queue one value for a
+	// later receive in the same goroutine-less execution.
+	if ch.Cap > 0 && len(ch.Buf) >= ch.Cap {
+		panic(&pathEnd{kind: "inconclusive", reason: "send on full channel would block (no scheduler) @ " + in.where()})
+	}
 	ch.Buf = append(ch.Buf, v)
 }
 
@@ -273,7 +277,7 @@ func (in *Interp) selectOp(fr *frame, instr *ssa.Select) Value {
 		} else if st.Dir == types.RecvOnly {
 			ready = tb.Bool(len(ch.Buf) > 0 || ch.Closed)
 		} else {
-			ready = tb.T // sends to user channels never block in this model
+			ready = tb.Bool(len(ch.Buf) < ch.Cap) // unbuffered sends have no waiting receiver in this model
 		}
 		if in.Branch(ready) {
 			if st.Dir == types.RecvOnly {
